@@ -250,7 +250,26 @@ def install_machine(it: Interp, trace: Optional[Trace] = None, area="symbolic", 
     it.hooks[(P, "difference")] = lambda i, a, k: GeomTok("diff", tuple(i.iterate(a[0])), tuple(i.iterate(a[1])))
     it.hooks[(P, "remove_overlaps")] = lambda i, a, k: GeomTok("simplify", a[0], k.get("fill_rule", a[1] if len(a) > 1 else None))
     it.hooks[(P, "stroke")] = lambda i, a, k: GeomTok("stroke", a[0], tuple(a[1:]), tuple(sorted(k.items())))
-    it.hooks[(P, "bounding_box")] = lambda i, a, k: tuple(RF.sym(f"bb{n}<{a[0]!r}>") for n in ("x1", "y1", "x2", "y2"))
+    def bounding_box(i, a, k):
+        # straight segments between constant points have a box the analysis can compute; anything else is four symbols
+        src = a[0]
+        while isinstance(src, GeomTok) and src.term[0] == "seq":
+            src = src.term[1]
+        cmds = getattr(src, "cmds", None) if isinstance(src, GeomTok) and src.term[0] == "path" else None
+        if cmds and all(c in "MLHVZmlhvz" for c, _ in cmds):
+            from sa.pathsem import ref_interp
+            from sa.sym import to_rf
+            try:
+                pts = [p for seg in ref_interp(list(cmds)) for p in seg[1:] if isinstance(p, tuple) and len(p) == 2]
+                if pts and all(to_rf(c).is_const() for p in pts for c in p):
+                    xs = [to_rf(p[0]).const_value() for p in pts]
+                    ys = [to_rf(p[1]).const_value() for p in pts]
+                    return (min(xs), min(ys), max(xs), max(ys))
+            except Exception:
+                pass
+        return tuple(RF.sym(f"bb{n}<{a[0]!r}>") for n in ("x1", "y1", "x2", "y2"))
+
+    it.hooks[(P, "bounding_box")] = bounding_box
 
     def path_area(i, a, k):
         src = a[0]
